@@ -28,6 +28,14 @@ def make_replay(prop, key, f, results, scratch):
         "reproduced": False,
     }
     reproduced = False
+    if f.get("lifted_input") is not None:      # bounded simulation unit: the failing program is the replay
+        rec["lifted_input"] = f["lifted_input"]
+        rec["real_code_result"] = f.get("real_code_result")
+        rec["replayed_on_real_code"] = True
+        rec["reproduced"] = True
+        with open(path, "w") as fh:
+            json.dump(rec, fh, indent=1)
+        return path, True
     try:
         mods = core.load_units()
         mod = mods.get(f.get("unit"))
@@ -68,22 +76,48 @@ def make_replay(prop, key, f, results, scratch):
 
 
 PROBE_DIR = os.path.join(core.VERIF, "vf", "probe")
+import threading
+_BUILD_LOCK = threading.Lock()
+_SEQ_LOCK = threading.Lock()
+_SEQ = [0]
+
+
+def ensure_probe(scratch):
+    """Build the replay driver once per scratch directory (path dependency on the repository under check); returns the executable."""
+    d = os.path.join(scratch, "probe")
+    exe = os.path.join(d, "target", "debug", "vfprobe")
+    with _BUILD_LOCK:
+        if not os.path.exists(exe):
+            import shutil
+            if not os.path.exists(d):
+                shutil.copytree(PROBE_DIR, d)
+                shutil.copy(os.path.join(core.REPO, "Cargo.lock"), os.path.join(d, "Cargo.lock"))
+                t = open(os.path.join(d, "Cargo.toml")).read().replace("/repo", core.REPO)
+                open(os.path.join(d, "Cargo.toml"), "w").write(t)
+            env = dict(os.environ, CARGO_NET_OFFLINE="true", CARGO_TARGET_DIR=os.path.join(d, "target"))
+            b = subprocess.run(["cargo", "build", "-q", "--offline"], cwd=d, env=env, capture_output=True, text=True, timeout=1200)
+            if b.returncode != 0 or not os.path.exists(exe):
+                raise RuntimeError("probe driver does not build against the repository: " + b.stderr[-1500:])
+    return exe
+
 
 
 def run_probe(lifted, scratch):
     """lifted = {"source": C text, "args": [...], "expect": {...}}: compile it with the real
     compiler (path dependency on /repo) and compare with the expectation."""
     d = os.path.join(scratch, "probe")
-    if not os.path.exists(d):
-        import shutil
-        shutil.copytree(PROBE_DIR, d)
-        shutil.copy(os.path.join(core.REPO, "Cargo.lock"), os.path.join(d, "Cargo.lock"))
-        s = open(os.path.join(d, "Cargo.toml")).read().replace("/repo", core.REPO)
-        open(os.path.join(d, "Cargo.toml"), "w").write(s)
-    src = os.path.join(d, "in.c")
+    exe = ensure_probe(scratch)
+    with _SEQ_LOCK:
+        _SEQ[0] += 1
+        src = os.path.join(d, "in_%d.c" % _SEQ[0])
     open(src, "w").write(lifted["source"])
-    env = dict(os.environ, CARGO_NET_OFFLINE="true", CARGO_TARGET_DIR=os.path.join(d, "target"))
-    p = subprocess.run(["cargo", "run", "-q", "--offline", "--", src] + list(lifted.get("args", [])), cwd=d, env=env, capture_output=True, text=True, timeout=600)
+    try:
+        p = subprocess.run([exe, src] + list(lifted.get("args", [])), cwd=d, capture_output=True, text=True, timeout=120)
+    finally:
+        try:
+            os.remove(src)
+        except OSError:
+            pass
     res = {"exit": p.returncode, "stdout": p.stdout[-4000:], "stderr": p.stderr[-2000:]}
     exp = lifted.get("expect", {})
     dis = False
@@ -96,6 +130,18 @@ def run_probe(lifted, scratch):
     if exp.get("is_error") is True:
         dis = dis or ("ERR:" not in p.stdout)
     sim = lifted.get("simulate")
+    if sim and sim.get("expect_from_args") is not None and not lifted.get("_baseline"):
+        # C02: the expectation is what the same program computes when compiled with the baseline options (-O0)
+        base = run_probe(dict(lifted, args=list(sim["expect_from_args"]), _baseline=True,
+                              simulate=dict({k: v for k, v in sim.items() if k != "expect_from_args"})), scratch)
+        bs = base.get("simulation") or {}
+        if bs.get("status") in ("end", "rts") and "got" in bs:
+            sim = dict(sim, expect={k: v for k, v in bs["got"].items() if k in sim.get("expect", {})}, expect16={k: v for k, v in bs["got"].items() if k in sim.get("expect16", {})})
+            res["baseline"] = bs
+        else:
+            res["baseline"] = base
+            res["disagrees"] = ("ERR:" in p.stdout) != ("ERR:" in base.get("stdout", ""))
+            return res
     if sim and p.stdout.startswith("OK"):
         # execute the code the real compiler emitted on the 6502 interpreter, from the counterexample's initial state
         from .sim6502 import Sim
